@@ -22,8 +22,8 @@ Section Limits.
      or only the Jacobian solver does (check_limits=False) and the weights are 1 *)
   Hypothesis Hmode : c_check cf = true \/ (c_check cf = false /\ unit_laws).
 
-  (* with check_limits=False the solver's x is itself inside the limits *)
-  Definition sxinv (s : state) : Prop := c_check cf = false -> forall x, sx s = Some x -> lims_ok E lims x.
+  (* with unit weights the solver's x is itself inside the limits *)
+  Definition sxinv (s : state) : Prop := unit_laws -> forall x, sx s = Some x -> lims_ok E lims x.
   Definition wfx (s : state) : Prop := wfs E cf s /\ sxinv s.
 
   Definition good_k (s : state) : Prop := wfx s /\ lims_ok E lims (knobs s).
@@ -189,22 +189,22 @@ Section Limits.
     pose proof (kn_inact_length _ _ _ _ Hk) as Lk. pose proof (kn_inact_length _ _ _ _ S4) as Lp.
     assert (Hwf' : wfs E cf s').
     { split; [congruence|]. split; [congruence|]. intros x Hx. rewrite S1 in Hx. inversion Hx; subst. auto. }
+    assert (Hx' : unit_laws -> lims_ok E lims x').
+    { intros U. pose proof (Sx U _ Hx0) as I0. destruct S7 as [->|(this & t & h & Hll & ->)]; auto.
+      eapply (lim_loop_lims U); [exact (proj1 U)|exact I0|exact Hll]. }
+    assert (Sx' : sxinv s') by (intros U x Hx; rewrite S1 in Hx; inversion Hx; subst; auto).
+    split; [split; [exact Hwf'|exact Sx']|].
     destruct Hmode as [Hc|[Hc U]].
-    - split; [split; [exact Hwf'|intros Hc'; congruence]|].
-      rewrite Hc in S5. eapply wk_lims_full; [exact S5| | | |].
+    - rewrite Hc in S5. eapply wk_lims_full; [exact S5| | | |].
       + congruence.
       + unfold wfc in Hwfc. congruence.
       + unfold x_to_knobs. rewrite map2_length, X1, Lp, W1. lia.
       + eapply kn_inact_lims; [exact S4|]. apply lims_ok_weak; auto.
-    - assert (Hx' : lims_ok E lims x').
-      { pose proof (Sx Hc _ Hx0) as I0. destruct S7 as [->|(this & t & h & Hll & ->)]; auto.
-        destruct U as (U1 & Urest). eapply (lim_loop_lims (conj U1 Urest)); [exact U1|exact I0|exact Hll]. }
-      split; [split; [exact Hwf'|intros _ x Hx; rewrite S1 in Hx; inversion Hx; subst; exact Hx']|].
-      rewrite Hc, (unit_x_to_knobs x' U X1) in S5. eapply wk_cover; [exact S5| | | | |].
+    - rewrite Hc, (unit_x_to_knobs x' U X1) in S5. eapply wk_cover; [exact S5| | | | |].
       + congruence.
       + unfold wfc in Hwfc. congruence.
       + congruence.
-      + exact Hx'.
+      + exact (Hx' U).
       + eapply kn_inact_lims; [exact S4|]. apply lims_ok_weak; auto.
   Qed.
 
@@ -223,14 +223,42 @@ Section Limits.
     intros [((W1 & W2 & W3) & Sx) Hl]. unfold good_k, wfx, wfs, sxinv; stsimpl. split; [|exact Hl]. split.
     - split; [exact W1|]. split; [exact W2|]. intros x0 Hx. inversion Hx; subst x0.
       split; [|rewrite map_length]; unfold knobs_to_x; rewrite map2_length, W1; lia.
-    - intros Hc x0 Hx. inversion Hx; subst x0. destruct Hmode as [Hc'|[_ U]]; [congruence|].
-      rewrite (unit_knobs_to_x _ U W1). exact Hl.
+    - intros U x0 Hx. inversion Hx; subst x0. rewrite (unit_knobs_to_x _ U W1). exact Hl.
+  Qed.
+
+  (* what is left after a failure: consistent shapes, solver x inside the limits
+     and - for unit weights - the containers inside the limits too *)
+  Definition semi (s : state) : Prop := wfx s /\ (unit_laws -> lims_ok E lims (knobs s)).
+  Lemma good_semi s : good_k s -> semi s.
+  Proof. intros [W Hl]. split; auto. Qed.
+
+  (* "except Exception: self.set_knobs_from_x(self.solver.x)": after a raising
+     solver step the containers hold the last accepted point *)
+  Lemma restore_semi s0 s1 x0 : good_k s0 -> sx s0 = Some x0 -> innerx E s0 s1 -> semi (restore_x E cf s1).
+  Proof.
+    intros [Wx Hl] Hx0 Hi. pose proof (innerx_wfx _ _ Wx Hi) as [(W1 & W2 & W3) Sx1].
+    destruct Hi as ((V & _ & _ & Hk) & X & M).
+    destruct (restore_x_facts E cf s1) as (Rv & Rt & Rl & Rx & Rm & Rk).
+    pose proof (kn_inact_length _ _ _ _ Rk) as Lr.
+    split.
+    - split; [|intros U x Hx; rewrite Rx in Hx; eauto].
+      split; [congruence|]. split; [congruence|]. intros x Hx. rewrite Rx in Hx. rewrite Rm. auto.
+    - intros U. assert (Hs : sx s1 = Some x0) by congruence. unfold restore_x. rewrite Hs.
+      set (xs := x0) in *.
+      destruct (W3 _ Hs) as [Lx _]. unfold set_knobs_from_x; stsimpl. rewrite (unit_x_to_knobs xs U Lx).
+        destruct (write_knobs E false (va s1) lims xs (knobs s1)) as [k' e] eqn:Hw. cbn [fst].
+        eapply wk_cover; [exact Hw| | | | |].
+        * congruence.
+        * unfold wfc in Hwfc. congruence.
+        * congruence.
+        * exact (Sx1 U _ Hs).
+        * rewrite V. eapply kn_inact_lims; [exact Hk|]. apply lims_ok_weak; auto.
   Qed.
 
   (* ---- the loop of Optimize.step --------------------------------------------------------- *)
   Lemma step_loop_good fuel b : forall nn i s, good_k s ->
     post (step_loop E cf fuel nn i b s)
-      (fun s' => good_k s' /\ ext_ok s s') (fun e s' => wfx s' /\ ext_ok s s').
+      (fun s' => good_k s' /\ ext_ok s s') (fun e s' => semi s' /\ ext_ok s s').
   Proof.
     induction nn as [|nn IH]; intros i s Hg; cbn [step_loop].
     - cbn. split; auto. apply ext_ok_refl.
@@ -242,12 +270,17 @@ Section Limits.
       { pose proof (reset_good s Hg) as Hreset. fold x in Hreset.
         unfold s0. destruct (sx s); [destruct (allclose_masked E (va s) x l)|]; stsimpl; auto. }
       destruct H0 as [G0 L0].
-      eapply post_bind'; [apply jac_step_spec| |].
-      { intros e s' Hx. split; [eapply innerx_wfx; [exact (proj1 G0)|exact Hx]|].
-        destruct Hx as ((_ & _ & L & _) & _). exists []. rewrite app_nil_r. split; auto. congruence. }
-      intros s1 (I1 & S1).
+      assert (Hs0 : exists x0, sx s0 = Some x0).
+      { unfold s0. destruct (sx s) eqn:Hs; [destruct (allclose_masked E (va s) x l)|]; stsimpl; eauto. }
+      destruct Hs0 as [x00 Hs0].
+      pose proof (jac_step_spec E cf fuel (this_broyden b i) s0) as Pj.
+      destruct (jac_step E cf fuel (this_broyden b i) s0) as [s1|e s1|]; [|clear IH|exact I].
+      2:{ cbn in Pj |- *. split; [eapply restore_semi; eauto|].
+          destruct Pj as ((_ & _ & L & _) & _). destruct (restore_x_facts E cf s1) as (_ & _ & Rl & _).
+          exists []. rewrite app_nil_r. split; auto. congruence. }
+      cbn in Pj. destruct Pj as (I1 & S1).
       pose proof (stepped_good s0 s1 G0 I1 S1) as G1.
-      destruct S1 as (x' & y & kp & X1 & _ & _ & S4 & S5 & _). unfold log_step. rewrite X1.
+      destruct S1 as (x' & y & kp & X1 & _ & _ & S4 & S5 & _). unfold log_step, restore_x. rewrite X1.
       assert (Hk2 : knobs (set_knobs_from_x E cf x' s1) = knobs s1).
       { unfold set_knobs_from_x; stsimpl. destruct I1 as (V & _). rewrite V. eapply wk_idem; eauto. }
       set (s2 := set_knobs_from_x E cf x' s1) in *.
@@ -275,11 +308,11 @@ Section Limits.
   (* ---- Optimize.step ---------------------------------------------------------------------- *)
   Lemma step_core_good fuel nn tb b s : good_k s -> Forall row_ok (log s) ->
     post (step_core E cf fuel nn tb b s)
-      (fun s' => good_k s' /\ ext_ok s s') (fun e s' => wfx s' /\ ext_ok s s').
+      (fun s' => good_k s' /\ ext_ok s s') (fun e s' => semi s' /\ ext_ok s s').
   Proof.
     intros Hg Hr. unfold step_core.
     eapply post_bind'; [apply (add_point_good 0%N s Hg)| |].
-    { intros e s' [[A _] L]. split; auto. exists []. rewrite app_nil_r; auto. }
+    { intros e s' [A L]. split; [apply good_semi; auto|]. exists []. rewrite app_nil_r; auto. }
     intros s1 (G1 & (r0 & L1 & R0)).
     assert (X1 : ext_ok s s1) by (exists [r0]; auto).
     eapply post_bind'; [apply (step_loop_good fuel b nn 0 s1 G1)| |].
@@ -289,9 +322,9 @@ Section Limits.
     destruct (tb && negb (lpwt s2)); [|cbn; auto].
     match goal with |- post (if ?c then _ else _) _ _ => destruct c end; [cbn; auto|].
     eapply post_bind'; [apply reload_good; [exact (proj1 G2)|eapply ext_ok_rows; eauto]| |].
-    - intros e s' [[_ ->]|[[A _] L]].
-      + split; [exact (proj1 G2)|auto].
-      + split; auto. destruct X02 as (m & Lm & Fm). exists m. split; auto. congruence.
+    - intros e s' [[_ ->]|[A L]].
+      + split; [apply good_semi; exact G2|auto].
+      + split; [apply good_semi; auto|]. destruct X02 as (m & Lm & Fm). exists m. split; auto. congruence.
     - intros s3 (G3 & (r' & L3 & R3)). cbn. rewrite L3, set_last_app.
       split.
       + destruct G3 as [((W1 & W2 & W3) & Sx) Hl]. split; stsimpl; auto. split; [split; auto|exact Sx].
@@ -336,7 +369,7 @@ Section Limits.
 
   Lemma opt_step_good fuel nn tb a b s : good_k s -> Forall row_ok (log s) ->
     post (opt_step E cf fuel nn tb a b s)
-      (fun s' => good_k s' /\ ext_ok s s') (fun e s' => wfx s' /\ ext_ok s s').
+      (fun s' => good_k s' /\ ext_ok s s') (fun e s' => semi s' /\ ext_ok s s').
   Proof.
     intros Hg Hr. unfold opt_step. destruct (pre_clip_good s Hg) as [Hgc Lc].
     destruct (pre_flags_data E cf a (pre_clip E cf s)) as (_ & Lp & _). rewrite Lc in Lp.
@@ -349,10 +382,13 @@ Section Limits.
   Qed.
 
   (* ---- solve ----------------------------------------------------------------------------- *)
+  Lemma semi_good_k s : unit_laws -> semi s -> good_k s.
+  Proof. intros U [W H]. split; auto. Qed.
+
   Lemma solve_good fuel nn tb b s : good s ->
     post (solve E cf fuel nn tb b s)
       (fun s' => good s')
-      (fun e s' => Forall row_ok (log s') /\ log s' <> [] /\ (c_restore cf = true -> good s')).
+      (fun e s' => Forall row_ok (log s') /\ log s' <> [] /\ (c_restore cf = true \/ unit_laws -> good s')).
   Proof.
     intros (Hg & Hr & Hne). unfold solve.
     set (k := match nn with Some k => k | None => c_nmax cf end).
@@ -363,17 +399,17 @@ Section Limits.
     destruct G0 as [G0 L0].
     set (body := bind (opt_step E cf fuel k tb no_args b s0)
                       (fun s1 => if c_assert cf && negb (lpwt s1) then Err ERuntime s1 else Ok s1)).
-    assert (Hbody : post body (fun s' => good_k s' /\ ext_ok s s') (fun e s' => wfx s' /\ ext_ok s s')).
+    assert (Hbody : post body (fun s' => good_k s' /\ ext_ok s s') (fun e s' => semi s' /\ ext_ok s s')).
     { unfold body. eapply post_bind'; [apply opt_step_good; [exact G0|rewrite L0; exact Hr]| |].
       - intros e s' [A B]. split; [exact A|exact B].
       - intros s1 [A B].
-        destruct (c_assert cf && negb (lpwt s1)); cbn; [split; [exact (proj1 A)|exact B]|split; [exact A|exact B]]. }
+        destruct (c_assert cf && negb (lpwt s1)); cbn; [split; [apply good_semi; exact A|exact B]|split; [exact A|exact B]]. }
     destruct body as [s1|e s1|]; cbn in Hbody; cbn; auto.
     - destruct Hbody as [A B]. split; auto. split; [eapply ext_ok_rows; eauto|eapply ext_ok_nonempty; eauto].
     - destruct Hbody as [A B].
       pose proof (ext_ok_rows _ _ B Hr) as R1. pose proof (ext_ok_nonempty _ _ B Hne) as N1.
       destruct (c_restore cf).
-      + pose proof (reload_good 0 s1 A R1) as Hrl.
+      + pose proof (reload_good 0 s1 (proj1 A) R1) as Hrl.
         destruct (reload E cf 0 s1) as [s2|e' s2|]; cbn in Hrl; cbn; auto.
         * destruct Hrl as (G2 & (r & L & Ro)).
           assert (R2 : Forall row_ok (log s2)) by (rewrite L; apply Forall_app; auto).
@@ -382,7 +418,7 @@ Section Limits.
         * destruct Hrl as [[Hn ->]|[G2 L]].
           -- destruct (log s1); [congruence|discriminate].
           -- rewrite L. split; auto. split; auto. intros _. split; auto. rewrite L; auto.
-      + split; auto. split; auto. discriminate.
+      + split; auto. split; auto. intros [Hf|U]; [discriminate|]. split; [apply semi_good_k; auto|auto].
   Qed.
 
   (* ---- every operation ---------------------------------------------------------------------- *)
@@ -395,29 +431,32 @@ Section Limits.
     | OClear => False
     | _ => True
     end.
+  (* a failing clear_log() leaves an empty log (no row 0) *)
+  Definition keeps_log (o : op) : Prop := match o with OClear => False | _ => True end.
 
   Lemma run_op_good fuel o s : good s ->
     post (run_op E cf fuel o s)
       (fun s' => good s')
-      (fun e s' => Forall row_ok (log s') /\ (restoring o -> good s')).
+      (fun e s' => Forall row_ok (log s') /\ (restoring o \/ (unit_laws /\ keeps_log o) -> good s')).
   Proof.
     intros (Hg & Hr & Hne).
     assert (Hrel : forall i, post (reload E cf i s) (fun s' => good s')
-                               (fun e s' => Forall row_ok (log s') /\ (True -> good s'))).
+                               (fun e s' => Forall row_ok (log s') /\ (True \/ (unit_laws /\ True) -> good s'))).
     { intros i. eapply post_weaken; [apply (reload_good i s (proj1 Hg) Hr)| |].
       - intros s' (G & (r & L & Ro)). split; auto. rewrite L. split; [apply Forall_app; auto|].
         destruct (log s); [congruence|discriminate].
       - intros e s' [[_ ->]|[G L]].
         + split; auto. intros _. split; auto.
         + rewrite L. split; auto. intros _. split; auto. rewrite L; auto. }
-    destruct o as [nn tb a b|nn tb b|i|t|t| |t v vn|t v vn]; cbn [run_op restoring].
+    destruct o as [nn tb a b|nn tb b|i|t|t| |t v vn|t v vn]; cbn [run_op restoring keeps_log].
     - eapply post_weaken; [apply (opt_step_good fuel nn tb a b s Hg Hr)| |].
       + intros s' [A B]. split; auto. split; [eapply ext_ok_rows; eauto|eapply ext_ok_nonempty; eauto].
-      + intros e s' [A B]. split; [eapply ext_ok_rows; eauto|tauto].
+      + intros e s' [A B]. split; [eapply ext_ok_rows; eauto|]. intros [[]|[U _]].
+        split; [apply semi_good_k; auto|]. split; [eapply ext_ok_rows; eauto|eapply ext_ok_nonempty; eauto].
     - eapply post_weaken; [apply (solve_good fuel nn tb b s)| |].
       + split; auto.
       + auto.
-      + intros e s' (A & B & C). auto.
+      + intros e s' (A & B & C). split; auto. intros [Hc|[U _]]; auto.
     - apply Hrel.
     - unfold reload_tag. destruct (last_with_tag E t 0 (log s) None); [apply Hrel|].
       cbn. split; auto. intros _. split; auto.
@@ -458,7 +497,8 @@ Section Limits.
   Inductive reach_r (s0 : state) : state -> Prop :=
   | rr_refl : reach_r s0 s0
   | rr_ok s1 fuel o s2 : reach_r s0 s1 -> run_op E cf fuel o s1 = Ok s2 -> reach_r s0 s2
-  | rr_err s1 fuel o e s2 : reach_r s0 s1 -> run_op E cf fuel o s1 = Err e s2 -> restoring o -> reach_r s0 s2.
+  | rr_err s1 fuel o e s2 : reach_r s0 s1 -> run_op E cf fuel o s1 = Err e s2 ->
+                            restoring o \/ (unit_laws /\ keeps_log o) -> reach_r s0 s2.
 
   Lemma reach_good s0 s : good s0 -> reach_r s0 s -> good s.
   Proof.
